@@ -8,7 +8,11 @@
    reported (d polls still show the old state; d = 0: effective at once); a later write
    replaces a pending one; an error may appear at any poll (it cancels the pending request);
    the error flag is cleared only by a request carrying the acknowledge flag, and a request
-   without it is refused while the flag is set.
+   without it is refused while the flag is set.  A terminal may also take an acknowledgement
+   the other way round ("early"): the error flag goes at once, the fall back to INIT takes
+   the d polls, which still show the OLD state without error, and a request written meanwhile
+   waits behind the fall back.  A request (without acknowledge) for a state more than one
+   step above the current one is an invalid state change: the terminal sets its error flag.
 
    The master's obligations exactly as the property states them, as enabling conditions of
    the master's actions (read AL status, acknowledge, request a state, return, raise):
@@ -37,6 +41,7 @@ Succ(s) == CASE s = INIT -> PREOP [] s = PREOP -> SAFEOP [] s = SAFEOP -> OP [] 
 AckInit == 17                  \* 0x11: request INIT with the acknowledge flag
 
 VARIABLES tst, terr, pend,     \* terminal: state, error flag, pending request
+          fall,                \* terminal: polls left of an early-acknowledged fall back to INIT (-1: none)
           target,              \* what the master was asked for
           started,             \* the master has read AL status at least once
           needAck,             \* that first read showed the error flag
@@ -46,7 +51,7 @@ VARIABLES tst, terr, pend,     \* terminal: state, error flag, pending request
           errObl,              \* "no" | "may" (error seen where raising is optional) | "must"
           outcome              \* "none" | "returned" | "raised"
 
-tvars == <<tst, terr, pend>>
+tvars == <<tst, terr, pend, fall>>
 mvars == <<target, started, needAck, acked, cur, req, errObl, outcome>>
 vars == <<tvars, mvars>>
 
@@ -55,18 +60,30 @@ NoPend == [req |-> 0, ack |-> FALSE, left |-> 0]
 -----------------------------------------------------------------------------
 (* terminal *)
 Apply(r, a) == IF terr /\ ~a THEN UNCHANGED <<tst, terr>>       \* refused: error not acknowledged
+               ELSE IF ~a /\ r > tst /\ r # Succ(tst)
+                    THEN terr' = TRUE /\ UNCHANGED tst            \* invalid requested state change
                ELSE tst' = r /\ terr' = FALSE
 
 TWrite(r, a, d) ==
     /\ r \in States /\ d \in 0 .. K
-    /\ IF d = 0 THEN Apply(r, a) /\ pend' = NoPend
+    /\ IF fall >= 0                 \* waits behind the fall back to INIT
+       THEN pend' = [req |-> r, ack |-> a, left |-> d] /\ UNCHANGED <<tst, terr>>
+       ELSE IF d = 0 THEN Apply(r, a) /\ pend' = NoPend
        ELSE pend' = [req |-> r, ack |-> a, left |-> d] /\ UNCHANGED <<tst, terr>>
+    /\ UNCHANGED fall
+
+(* INIT|ack taken "early": error flag off at once, d polls of the old state, then INIT *)
+TAckEarly(d) ==
+    /\ d \in 1 .. K
+    /\ terr' = FALSE /\ fall' = d /\ pend' = NoPend /\ UNCHANGED tst
 
 TPoll(inject) ==
-    IF inject THEN terr' = TRUE /\ pend' = NoPend /\ UNCHANGED tst
+    IF inject THEN terr' = TRUE /\ pend' = NoPend /\ fall' = -1 /\ UNCHANGED tst
+    ELSE IF fall > 0 THEN fall' = fall - 1 /\ UNCHANGED <<tst, terr, pend>>
+    ELSE IF fall = 0 THEN tst' = INIT /\ fall' = -1 /\ UNCHANGED <<terr, pend>>
     ELSE IF pend.req = 0 THEN UNCHANGED tvars
-    ELSE IF pend.left > 0 THEN pend' = [pend EXCEPT !.left = @ - 1] /\ UNCHANGED <<tst, terr>>
-    ELSE Apply(pend.req, pend.ack) /\ pend' = NoPend
+    ELSE IF pend.left > 0 THEN pend' = [pend EXCEPT !.left = @ - 1] /\ UNCHANGED <<tst, terr, fall>>
+    ELSE Apply(pend.req, pend.ack) /\ pend' = NoPend /\ UNCHANGED fall
 
 -----------------------------------------------------------------------------
 (* master *)
@@ -93,9 +110,9 @@ MRead(inject) ==
                        ELSE UNCHANGED <<cur, req>>
     /\ UNCHANGED <<target, outcome>>
 
-MAck(d) ==
+MAck(d, early) ==
     /\ outcome = "none" /\ started /\ PreAck
-    /\ TWrite(INIT, TRUE, d)
+    /\ IF early THEN TAckEarly(d) ELSE TWrite(INIT, TRUE, d)
     /\ acked' = TRUE /\ cur' = INIT
     /\ UNCHANGED <<target, started, needAck, req, errObl, outcome>>
 
@@ -121,13 +138,13 @@ MRaise ==
     /\ UNCHANGED <<tvars, target, started, needAck, acked, cur, req, errObl>>
 
 -----------------------------------------------------------------------------
-Init == /\ tst \in States /\ terr \in BOOLEAN /\ pend = NoPend
+Init == /\ tst \in States /\ terr \in BOOLEAN /\ pend = NoPend /\ fall = -1
         /\ target \in Targets
         /\ started = FALSE /\ needAck = FALSE /\ acked = FALSE
         /\ cur = 0 /\ req = 0 /\ errObl = "no" /\ outcome = "none"
 
 Read == \E inject \in BOOLEAN : MRead(inject)
-Act == \/ \E d \in 0 .. K : MAck(d)
+Act == \/ \E d \in 0 .. K, early \in BOOLEAN : MAck(d, early)
        \/ \E s \in States, d \in 0 .. K : MRequest(s, d)
        \/ MReturn \/ MRaise
 Next == Read \/ Act
@@ -136,14 +153,18 @@ Spec == Init /\ [][Next]_vars /\ WF_vars(Read) /\ WF_vars(Act)
 
 -----------------------------------------------------------------------------
 TypeOK == /\ tst \in States /\ terr \in BOOLEAN
-          /\ pend \in [req : States \cup {0}, ack : BOOLEAN, left : 0 .. K]
+          /\ pend \in [req : States \cup {0}, ack : BOOLEAN, left : 0 .. K] /\ fall \in -1 .. K
           /\ target \in Targets /\ started \in BOOLEAN /\ needAck \in BOOLEAN /\ acked \in BOOLEAN
           /\ cur \in States \cup {0} /\ req \in Targets \cup {0}
           /\ errObl \in {"no", "may", "must"} /\ outcome \in {"none", "returned", "raised"}
 
 (* consequences of the obligations for the terminal, checked on the composition *)
 NeverAboveTarget == req <= target /\ pend.req <= target
-ReturnedMeansThere == outcome = "returned" => (tst >= target /\ (acked => tst = target))
+(* the terminal is where the master says - once it has settled: a terminal that takes the
+   acknowledgement early can show its old state, equal to the requested one, while still
+   falling back to INIT; no master can tell that from the report it waits for *)
+Settled == fall = -1 /\ pend.req = 0
+ReturnedMeansThere == (outcome = "returned" /\ Settled) => (tst >= target /\ (acked => tst = target))
 RaisedMeansError == outcome = "raised" => terr
 (* the terminal is walked through its state machine: a reset to INIT or one step up *)
 Walk == [][tst' # tst => (tst' = INIT \/ tst' = Succ(tst))]_vars
